@@ -65,6 +65,9 @@ CHECKS.update({
  "C19": ("exploration","runtime monitors: recording Stats/Logger implementations related to the captured response per query; exact-sum check of concurrent counters under the race detector; three-valued timed oracle on real sliding windows",
          "(a) per query, counter deltas and logger calls received through the public Stats/Logger interfaces are related to the message actually written (query/type/location/cache/outcome counters; Log exactly once with the written message) over generated and hostile queries on every database layout and backend, cache on and off; (b) 16x1e5 concurrent increments with a concurrent exporter must sum exactly, race build; (c) real sliding windows with a 3 s lifetime (verif constructor) run scripted Add schedules mixing live and expired samples at cleaner ticks, each observation decided only when every sample is unambiguously live or gone by measured timestamps.",
          "(c) depends on the real clock (the code has no clock seam): ambiguous observations are skipped and counted. Bare SERVFAIL replies are treated as failure replies, not composed responses.","4/C19"),
+ "C20": ("exploration","differential runtime monitor: replies of a real fbserver.Server over loopback UDP/TCP vs the bare handler in-process, per front-handler configuration, race-detector build",
+         "Starts the real server (UDP+TCP) on a loopback port for combinations of backend, whoami domain, ANY refusal and max-answer, sends generated queries with a DNS client over UDP (no EDNS/512/1232/4096, with and without ECS) and TCP and compares every reply canonically with FBDNSDB.ServeDNS on the same database, remote address and max-answer; oversized answers must be truncated within the advertised size over UDP (actual datagram length) and complete over TCP; refused ANY must be the single synthesized HINFO; whoami queries answered by the whoami handler; a question-less message gets a failure rcode and the server survives; shutdown under load.",
+         "Loopback sockets only; address records compared by owner and type (weighted choice is random). TLS listeners are not exercised.","4/C20"),
 })
 BUILT = set(CHECKS)
 ALL = [json.loads(l)["id"] for l in open("properties.jsonl")]
